@@ -1,10 +1,11 @@
 #!/bin/bash
-# confirm_benign.sh <ID> (e.g. C01): for each /tmp/seed-out/<ID>b/v*/patch.diff build+test in a scratch worktree and install to /verif/benign/<ID>-b<k>/
+# confirm_benign.sh <ID> [suffix=b] [offset=0] (e.g. C01, or C01 c 4 for the second round): for each /tmp/seed-out/<ID><suffix>/v<k>/patch.diff
+# build+test in a scratch worktree and install to /verif/benign/<ID>-b<k+offset>/
 set -u
 export GOFLAGS=-mod=mod GOPROXY=off
-ID=$1; WT=/tmp/bw-$ID
+ID=$1; SFX=${2:-b}; OFF=${3:-0}; WT=/tmp/bw-$ID
 git -C /repo worktree add -q --detach $WT HEAD 2>/dev/null || { rm -rf $WT; git -C /repo worktree prune; git -C /repo worktree add -q --detach $WT HEAD; }
-for d in /tmp/seed-out/${ID}b/v*/; do
+for d in /tmp/seed-out/${ID}${SFX}/v*/; do
   k=$(basename $d); [ -f $d/patch.diff ] || continue
   cd $WT; git checkout -q -- .; git clean -fdq
   if ! git apply $d/patch.diff; then echo "$ID $k: does not apply"; continue; fi
@@ -12,10 +13,10 @@ for d in /tmp/seed-out/${ID}b/v*/; do
   # the frr package's TestMain needs Docker: its docker_test.go is replaced by a stub through a test overlay
   echo "{\"Replace\": {\"$WT/internal/bgp/frr/docker_test.go\": \"/verif/tools/overlay/frr_docker_stub_test.go.txt\"}}" > /tmp/bw-ov-$ID.json
   OK=true; LOG=$(go build ./... 2>&1 && go vet $PK 2>&1 && go test -count=1 -vet=off -overlay /tmp/bw-ov-$ID.json -skip '^TestManager$' $PK ./controller/ ./speaker/ ./internal/allocator/ ./internal/config/ 2>&1) || OK=false
-  DST=/verif/benign/$ID-b${k#v}; 
+  n=${k#v}; DST=/verif/benign/$ID-b$((n+OFF)); 
   if $OK; then
     mkdir -p $DST; cp $d/patch.diff $DST/; 
-    jq --arg pk "$PK" '. + {confirmed_by_me:{how:("scratch worktree: go build ./..., go vet + go test -count=1 of touched packages ("+$pk+") plus ./controller ./speaker ./internal/allocator ./internal/config: green"), result:true}, origin:"independent sub-agent that saw only the property text"}' $d/meta.json > $DST/meta.json
+    jq --arg pk "$PK" --arg off "$OFF" '. + {confirmed_by_me:{how:("scratch worktree: go build ./..., go vet + go test -count=1 of touched packages ("+$pk+") plus ./controller ./speaker ./internal/allocator ./internal/config: green"), result:true}, origin:"independent sub-agent that saw only the property text", round:(if $off == "0" then 1 else 2 end)}' $d/meta.json > $DST/meta.json
     echo "$ID $k: confirmed"
   else echo "$ID $k: FAILED"; echo "$LOG" | tail -15; fi
 done
